@@ -457,13 +457,13 @@ End Composite.
 (* 3. capacities                                                            *)
 (* ====================================================================== *)
 Lemma capacity_ok_8 : capacity_ok 8.
-Proof. split; apply N.leb_le; vm_compute; reflexivity. Qed.
+Proof. apply N.leb_le; vm_compute; reflexivity. Qed.
 Lemma capacity_ok_2_40 : capacity_ok (2 ^ 40).
-Proof. split; apply N.leb_le; vm_compute; reflexivity. Qed.
+Proof. apply N.leb_le; vm_compute; reflexivity. Qed.
 Lemma capacity_ok_2_63 : capacity_ok (2 ^ 63).
-Proof. split; apply N.leb_le; vm_compute; reflexivity. Qed.
+Proof. apply N.leb_le; vm_compute; reflexivity. Qed.
 Lemma capacity_ok_7 : capacity_ok 7.
-Proof. split; apply N.leb_le; vm_compute; reflexivity. Qed.
+Proof. apply N.leb_le; vm_compute; reflexivity. Qed.
 
 (* ====================================================================== *)
 (* 4. concrete non-trivial states                                           *)
@@ -829,7 +829,7 @@ Example history_u64 (v1 v2 v3 v : U64) :
     SysInv (ek_uintW 3) Mmv Hc 4 mv_inv st' s' a'.
 Proof.
   apply run_refines_u64.
-  - split; apply N.leb_le; reflexivity.
+  - apply N.leb_le; reflexivity.
   - repeat constructor.
 Qed.
 
